@@ -48,15 +48,33 @@ Theorem C04_stack_assoc : forall (A : Type) outer inner (ps qs : list (nat * lis
 Proof. intros A. exact stack_assoc. Qed.
 Print Assumptions C04_stack_assoc.
 
-(* PARTIAL (leading axis only; for inner axes the link is held by the correspondence: the
-   library's sliceDimensions pieces equal split_file's): the piece [c0, c0+len) is the C02
-   orthogonal selection with the unit-stride selector on that axis and everything elsewhere *)
-Theorem C04_piece_is_slice_axis0_partial : forall (A : Type) n sh c0 len (d : list A),
-  length d = n * prodn sh -> c0 + len <= n ->
-  piece_at 1 (prodn sh) n c0 len d
-  = oslice (n :: sh) (RSlice (seq c0 len) :: map full_sel sh) d.
-Proof. intros A. exact piece_is_oslice_axis0. Qed.
-Print Assumptions C04_piece_is_slice_axis0_partial.
+(* at ANY axis position (pre = the axis lengths before it, post = those after) the piece
+   [c0, c0+len) is the C02 orthogonal selection with the unit-stride selector on that axis and
+   "everything" on the others: splitting IS slicing *)
+Theorem C04_piece_is_slice : forall (A : Type) pre n post c0 len (d : list A),
+  length d = prodn pre * (n * prodn post) -> c0 + len <= n ->
+  piece_at (prodn pre) (prodn post) n c0 len d
+  = oslice (pre ++ n :: post) (axis_sel pre post c0 len) d.
+Proof. intros A. exact piece_is_oslice. Qed.
+Print Assumptions C04_piece_is_slice.
+
+(* stack of split = original, with the pieces written as C02 slices, any axis, any partition *)
+Theorem C04_stack_of_slices : forall (A : Type) pre n post lens (d : list A),
+  length d = prodn pre * (n * prodn post) -> sumn lens = n ->
+  concat_at (prodn pre) (prodn post)
+    (map (fun e => (snd e, oslice (pre ++ n :: post) (axis_sel pre post (fst e) (snd e)) d))
+         (extents 0 lens)) = d.
+Proof. intros A. exact stack_of_slices. Qed.
+Print Assumptions C04_stack_of_slices.
+
+(* slicing (C02 model) the stack of ANY files at the extent of one of them reproduces it *)
+Theorem C04_slice_of_stack : forall (A : Type) pre post before (p : nat * list A) after,
+  Forall (part_ok (prodn pre) (prodn post)) (before ++ p :: after) ->
+  oslice (pre ++ sumn (map fst (before ++ p :: after)) :: post)
+         (axis_sel pre post (sumn (map fst before)) (fst p))
+         (concat_at (prodn pre) (prodn post) (before ++ p :: after)) = snd p.
+Proof. intros A. exact slice_of_stack_oslice. Qed.
+Print Assumptions C04_slice_of_stack.
 
 (* ---- non-vacuity ---------------------------------------------------------------------------- *)
 
@@ -71,6 +89,12 @@ Example C04_split_inhabited :
 Proof. vm_compute. repeat split; try reflexivity; discriminate. Qed.
 
 (* whole-file model: two files stacked on dimension 1; a variable without it comes from the first *)
+(* the middle-axis piece of the example above as a C02 slice *)
+Example C04_piece_is_slice_inhabited :
+  axis_sel [2] [2] 2 3 = [full_sel 2; RSlice [2; 3; 4]; full_sel 2] /\
+  oslice [2; 5; 2] (axis_sel [2] [2] 2 3) (seq 0 20) = [4; 5; 6; 7; 8; 9; 14; 15; 16; 17; 18; 19].
+Proof. vm_compute. split; reflexivity. Qed.
+
 Example C04_file_example :
   impl_stack [File [2; 1] [Var [0; 1] [10; 11]; Var [0] [1; 2]];
               File [2; 2] [Var [0; 1] [20; 21; 22; 23]; Var [0] [7; 8]]] 1
